@@ -259,6 +259,8 @@ func runC05(c *core.Ctx) core.Meta {
 	// R05.8: what the program reads back must not depend on host thread scheduling (c12.go, R12.8)
 	c.BuildSSA()
 	checkHostWritesAfterRelease(c, NewPkgInfo(c, driverPkg), core.NewProv(c), "R05.8")
+	// R05.9: one ALU per compute unit (fresh.go)
+	checkPerUnitInstances(c, "R05.9")
 
 	// ---------------- R05.2 host-dependent values ----------------
 	st2 := c.Rule("R05.2", "calls that return host-dependent values (wall clock, global math/rand, crypto/rand, process/goroutine/CPU counts, xid, %p formatting) in simulation code are exactly the listed exceptions, whose results flow only into sinks that simulation code never reads", 2)
